@@ -759,6 +759,7 @@ func shapes(s *hx.Seq) {
 func main() {
 	h := hx.New("C13")
 	h.Seq("shapes", shapes)
+	registerOverlap(h)
 	for _, sc := range scripts(true) {
 		sc := sc
 		q := -1
